@@ -22,7 +22,7 @@ try:
                            env=dict(os.environ, VERIF_REPO=tree, VERIF_EVIDENCE_DIR=os.path.join(tmp, 'ev'), VERIF_NO_SELFTEST='1'))
         print('==', sid, prop, 'rc', q.returncode)
         for l in (q.stdout + q.stderr).split('\n'):
-            if ' rule ' in l or 'ANALYSIS-ERROR' in l or 'Traceback' in l or 'Error' in l:
+            if ' rule ' in l or 'ANALYSIS-ERROR' in l or 'Traceback' in l or 'Error' in l or l.startswith('  File') or os.environ.get('ALL'):
                 print('  ', l[:int(os.environ.get('W', '420'))])
 finally:
     shutil.rmtree(tmp, ignore_errors=True)
